@@ -663,7 +663,7 @@ func unitCase(r *lib.Run, idx int) {
 
 func TestC19(t *testing.T) {
 	r := lib.Start("C19", "exploration")
-	n := r.N(480, 40000)
+	n := r.N(1600, 80000)
 	r.Cases(n, 0, func(idx int) {
 		switch idx % 8 {
 		case 5:
